@@ -225,7 +225,7 @@ func cmdSelftest(args []string) int {
 			n := 0
 			for i, oc := range occs {
 				call, isCall := oc.In.(*ssa.Call)
-				if !isCall || call.Call.StaticCallee() == nil || call.Call.StaticCallee().Name() != "Opaque" {
+				if !isCall || call.Call.StaticCallee() == nil || !strings.HasPrefix(call.Call.StaticCallee().Name(), "Opaque") {
 					continue
 				}
 				root := p.Upto(oc.Seg).APIn(oc.Ctx, call.Call.Args[0]).Root
